@@ -716,16 +716,17 @@ def _run(ctx, res):
              # only the ASCII space is excluded from a device name: other white space is part of it
              (("dev0", "key0"), ("\u4f1a\u8b70\u5ba4\u3000A", "k\u00a0ey")), (("Salle\u00a0B", "k\tk"), ("dev\u20031", "key\x0b1"))]
     for n in (50, 700, 3000, 20000) + (() if ctx.quick else (80000, 400000)):
-        for send_max, names in [(64, None), (512, None), (1460, None)] + [(1460, nm) for nm in NAMES[1:]] + [(64, NAMES[1])]:
-            r = S.sender_probe(n, send_max=send_max, names=names)
-            res.note_case(("sender", n, send_max, repr(names)), True)
+        for send_max, names, kind in [(64, None, "updated"), (512, None, "halted"), (1460, None, "completed")] + \
+                [(1460, nm, "updated") for nm in NAMES[1:]] + [(64, NAMES[1], "halted"), (512, None, "updated"), (64, None, "completed")]:
+            r = S.sender_probe(n, send_max=send_max, names=names, kind=kind)
+            res.note_case(("sender", n, send_max, repr(names), kind), True)
             res.count("sender_side_messages")
             if r["reported"] == 0 and not r["delivered"]:
                 res.failures.append(dict(
                     signature="reported-sent-but-not-delivered",
                     what="_tcp_send reported success for a %s-byte message of which %d bytes reached the wire (send() takes "
-                         "at most %d bytes per call); the receiver applied nothing" % (r["message_bytes"], r["wire_bytes"], send_max),
-                    case=dict(sender=True, text_len=n, send_max=send_max, names=names), detail=r))
+                         "at most %d bytes per call); the receiver did not hand its %s runs to the subscribers" % (r["message_bytes"], r["wire_bytes"], send_max, kind),
+                    case=dict(sender=True, text_len=n, send_max=send_max, names=names, kind=kind), detail=r))
             elif r["reported"] != 0:
                 res.errors.append("sender probe: _tcp_send did not succeed on a healthy fake socket: %r" % (r,))
 
@@ -786,7 +787,7 @@ def replay(obj):
         return replay_stream(case)
     if case.get("sender"):
         nm = case.get("names")
-        r = S.sender_probe(case["text_len"], send_max=case["send_max"], names=[tuple(x) for x in nm] if nm else None)
+        r = S.sender_probe(case["text_len"], send_max=case["send_max"], names=[tuple(x) for x in nm] if nm else None, kind=case.get("kind", "updated"))
         print("real _tcp_send on a socket whose send() takes at most %d bytes per call:" % case["send_max"], r)
         bad = r["reported"] == 0 and not r["delivered"]
         print("reported as sent, but the receiver applied nothing" if bad else "what was reported as sent was applied")
